@@ -1,8 +1,12 @@
 """C13 Built-in brk handler gives the guest a working, growing heap.
 
 C13.select  the handler acts only for RAX == 12 and otherwise leaves everything untouched (Unhandled)
-C13.query   brk(0) returns heap base + current length
-C13.move    brk(p): resize(base, p - base); RAX == p (affine); brk_length := p - base only after the resize succeeded
+Decided per class {first use, heap exists} x {p=0, 0<p<base, p=base, p>base}: every comparison among 0, p, brk_start and
+the allocator's result is answered by the class (a comparison oracle), so the rules do not depend on how the hook
+spells its tests.
+C13.query   p=0: RAX := heap base + current length, no resize
+C13.move    p=base, p>base: exactly one resize(base, p - base); RAX == p (affine); brk_length := p - base only after
+            the resize succeeded; untouched when it fails
 C13.first   first use allocates through the non-overlapping allocator; base := its result, length := the allocated size
 C13.reach   the resize primitive can succeed for a non-zero size (shared with C10.overlap, self case)
 """
@@ -22,7 +26,7 @@ def fieldnames(loc):
     return [p[2] for p in loc[1] if isinstance(p, tuple) and p[0] == "f"]
 
 
-def run_hook_closure(ctx, cpath, extra=None):
+def run_hook_closure(ctx, cpath, extra=None, oracle=None):
     facts = ctx.facts
     b = facts.bodies[cpath]
     pr = P.HandlerPrims(facts, ctx.roles)
@@ -34,6 +38,7 @@ def run_hook_closure(ctx, cpath, extra=None):
                 return r
         return pr.intercept(I, path, frame, t, name, args)
     I = A.Interp(facts, intercept=icpt)
+    I.cmp_oracle = oracle
     env = ("agg", "closure:" + cpath, None, ())
     tmp = ("L", ("hook-env", cpath), 0)
     p = A.Path()
@@ -96,110 +101,120 @@ def run(ctx):
             p2.events.append(("resize_err", args[1], args[2]))
             return [(A.OK(A.UNIT), path), (A.ERR(("e",)), p2)]
         return None
-    outs, I, b = run_hook_closure(ctx, cl[0], extra)
-    where = "%s:%d (brk hook)" % (b["span"][0], b["span"][1])
-    rets = [o for o in outs if o.kind == "return"]
-    ck.cov["brk_paths"] = len(rets)
-    ck.floor("brk hook paths", len(rets), 6)
     START = ("field", ("field", ("field", ("init", "self", 0), "state"), "syscalls"), "brk_start")
     LENGTH = ("field", ("field", ("field", ("init", "self", 0), "state"), "syscalls"), "brk_length")
     sel_bad = q_bad = m_bad = f_bad = None
-    nq = nm = nf = 0
-    for o in rets:
-        sel = rax_selector(facts, o)
-        res = hook_result(o)
-        if sel is None:
-            sel_bad = sel_bad or "a path does not test RAX"
-            continue
-        if sel[0] != 12:
-            sel_bad = sel_bad or "selects syscall %d, brk is 12" % sel[0]
-        if not sel[1]:
-            if res != "unhandled" or effects(o):
-                sel_bad = sel_bad or "other syscalls: %s" % ("has effects" if effects(o) else "not left Unhandled")
-            continue
-        evs = o.path.events
-        first = any(e[0] == "alloc" for e in evs)
-        base = A.W(("heapbase",), 64) if first else A.W(START, 64)
-        # RDI == 0 ?
-        rdi_zero = None
-        for t, op, val in o.path.conds:
-            if t[0] == "bin" and t[1] == "Eq" and A.is_int(t[3]) and t[3][1] == 0:
-                x = U.strip(t[2])
-                if x[0] == "reg" and U.reg_name(facts, x[2]) == "RDI":
-                    rdi_zero = (val == 1) if op == "==" else True
-        raxw = [e for e in evs if e[0] == "reg_write" and U.reg_name(facts, e[2]) == "RAX"]
-        if first:
-            nf += 1
-            al = [e for e in evs if e[0] == "alloc"][0]
-            st = [e for e in evs if e[0] == "store"]
-            sstart = [e for e in st if fieldnames(e[1])[-1:] == ["brk_start"]]
-            slen = [e for e in st if fieldnames(e[1])[-1:] == ["brk_length"]]
-            if not sstart or U.strip(sstart[0][2]) != ("heapbase",):
-                f_bad = f_bad or "heap base is not the allocator's result"
-            if not slen or U.strip(slen[0][2]) != U.strip(al[1]):
-                f_bad = f_bad or "initial length %s differs from the allocated size %s" % (
-                    A.show(slen[0][2]) if slen else None, A.show(al[1]))
-        if res == "err":
-            continue
-        if rdi_zero:
-            nq += 1
-            if len(raxw) != 1:
-                q_bad = q_bad or "%d RAX writes on the query path" % len(raxw)
-            else:
+    nq = nm = nf = nb = 0
+    npaths = 0
+    covered = set()
+    where = None
+    # A7-style classes: the argument p relative to 0 and the heap base, x first use or not. Every comparison among
+    # {0, p, brk_start (entry value), the allocator's result} is decided by the class; anything else forks.
+    for first in (False, True):
+        for cname, prank in (("p=0", 0), ("0<p<base", 1), ("p=base", 2), ("p>base", 3)):
+            def rank(t, first=first, prank=prank):
+                t = U.strip(t)
+                if A.is_int(t):
+                    return 0 if t[1] == 0 else None
+                if t[0] == "reg" and U.reg_name(facts, t[2]) == "RDI":
+                    return prank
+                if t == START:
+                    return 0 if first else 2
+                if t == ("heapbase",):
+                    return 2
+                return None
+
+            def oracle(path, op, x, y, rank=rank):
+                rx, ry = rank(x), rank(y)
+                if rx is None or ry is None:
+                    return None
+                return int({"Eq": rx == ry, "Ne": rx != ry, "Lt": rx < ry, "Le": rx <= ry, "Gt": rx > ry, "Ge": rx >= ry}[op])
+            outs, I, b = run_hook_closure(ctx, cl[0], extra, oracle)
+            where = "%s:%d (brk hook)" % (b["span"][0], b["span"][1])
+            rets = [o for o in outs if o.kind == "return"]
+            npaths += len(rets)
+            for o in rets:
+                sel = rax_selector(facts, o)
+                res = hook_result(o)
+                if sel is None:
+                    sel_bad = sel_bad or "a path does not test RAX"
+                    continue
+                if sel[0] != 12:
+                    sel_bad = sel_bad or "selects syscall %d, brk is 12" % sel[0]
+                if not sel[1]:
+                    if res != "unhandled" or effects(o):
+                        sel_bad = sel_bad or "other syscalls: %s" % ("has effects" if effects(o) else "not left Unhandled")
+                    continue
+                evs = o.path.events
+                did_alloc = any(e[0] == "alloc" for e in evs)
+                if did_alloc != first and res != "err":
+                    f_bad = f_bad or ("no allocation on first use (brk_start == 0)" if first else "allocates although the heap exists")
+                base = A.W(("heapbase",), 64) if did_alloc else A.W(START, 64)
+                raxw = [e for e in evs if e[0] == "reg_write" and U.reg_name(facts, e[2]) == "RAX"]
+                if did_alloc:
+                    nf += 1
+                    al = [e for e in evs if e[0] == "alloc"][0]
+                    st = [e for e in evs if e[0] == "store"]
+                    sstart = [e for e in st if fieldnames(e[1])[-1:] == ["brk_start"]]
+                    slen = [e for e in st if fieldnames(e[1])[-1:] == ["brk_length"]]
+                    if not sstart or U.strip(sstart[0][2]) != ("heapbase",):
+                        f_bad = f_bad or "heap base is not the allocator's result"
+                    if not slen or U.strip(slen[0][2]) != U.strip(al[1]):
+                        f_bad = f_bad or "initial length %s differs from the allocated size %s" % (
+                            A.show(slen[0][2]) if slen else None, A.show(al[1]))
+                if res == "err":
+                    if any(e[0] == "resize_err" for e in evs):
+                        ri = [i for i, e in enumerate(evs) if e[0] == "resize_err"][0]
+                        if any(e[0] == "store" and fieldnames(e[1])[-1:] == ["brk_length"] for e in evs[ri:]):
+                            m_bad = m_bad or "brk_length changed although the resize failed"
+                    continue
+                if res != "handled":
+                    sel_bad = sel_bad or "brk (%s) is left %s" % (cname, res)
+                    continue
+                covered.add((first, cname))
+                rs = [e for e in evs if e[0] == "resize"]
                 cur_len = None
                 for e in evs:
                     if e[0] == "store" and fieldnames(e[1])[-1:] == ["brk_length"]:
                         cur_len = e[2]
-                want = ("bin", "Add", base, cur_len if cur_len is not None else A.W(LENGTH, 64), 64)
-                if not U.affine_eq(raxw[0][3], want):
-                    q_bad = q_bad or "brk(0) returns %s, the current break is %s" % (A.show(U.strip(raxw[0][3])), A.show(want))
-            if any(e[0] == "resize" for e in evs):
-                q_bad = q_bad or "query path resizes the heap"
-        elif rdi_zero is False and any(e[0] == "checked" and e[1] == "Sub" and e[4] == "none" for e in evs):
-            # p below the heap base: refuse, report the current break, change nothing
-            if any(e[0] in ("resize", "resize_err") for e in evs) or \
-                    any(e[0] == "store" and fieldnames(e[1])[-1:] == ["brk_length"] for e in evs if not first):
-                m_bad = m_bad or "a break below the heap base resizes the heap"
-            cur_len = None
-            for e in evs:
-                if e[0] == "store" and fieldnames(e[1])[-1:] == ["brk_length"]:
-                    cur_len = e[2]
-            want = ("bin", "Add", base, cur_len if cur_len is not None else A.W(LENGTH, 64), 64)
-            if len(raxw) != 1 or not U.affine_eq(raxw[0][3], want):
-                m_bad = m_bad or "a break below the heap base returns %s, expected the current break" % (
-                    A.show(raxw[0][3]) if raxw else None)
-        elif rdi_zero is False:
-            nm += 1
-            rs = [e for e in evs if e[0] == "resize"]
-            if len(rs) != 1:
-                m_bad = m_bad or "%d resize calls on the move path" % len(rs)
-                continue
-            rdi = [U.strip(c[0][2]) for c in o.path.conds if c[0][0] == "bin" and U.strip(c[0][2])[0] == "reg"
-                   and U.reg_name(facts, U.strip(c[0][2])[2]) == "RDI"]
-            p = A.W(rdi[0], 64) if rdi else None
-            if U.strip(rs[0][1]) != U.strip(base):
-                m_bad = m_bad or "resizes the area at %s, heap base is %s" % (A.show(rs[0][1]), A.show(base))
-            if p is not None and not U.affine_eq(rs[0][2], ("bin", "Sub", p, base, 64)):
-                m_bad = m_bad or "requests size %s, expected p - base" % A.show(rs[0][2])
-            if len(raxw) != 1 or (p is not None and not U.affine_eq(raxw[0][3], p)):
-                m_bad = m_bad or "returns %s, expected p" % (A.show(raxw[0][3]) if raxw else None)
-            # brk_length stored after the resize
-            ri = evs.index(rs[0])
-            ls = [i for i, e in enumerate(evs) if e[0] == "store" and fieldnames(e[1])[-1:] == ["brk_length"] and i > ri]
-            if not ls:
-                m_bad = m_bad or "brk_length not updated after a successful resize"
-            elif not U.affine_eq(evs[ls[-1]][2], rs[0][2]):
-                m_bad = m_bad or "brk_length := %s differs from the resized size" % A.show(evs[ls[-1]][2])
-            early = [i for i, e in enumerate(evs) if e[0] == "store" and fieldnames(e[1])[-1:] == ["brk_length"] and i < ri and not first]
-            if early:
-                m_bad = m_bad or "brk_length updated before the resize succeeded"
-        # failed resize leaves brk_length alone
-    for o in rets:
-        if hook_result(o) == "err" and any(e[0] == "resize_err" for e in o.path.events):
-            evs = o.path.events
-            ri = [i for i, e in enumerate(evs) if e[0] == "resize_err"][0]
-            if any(e[0] == "store" and fieldnames(e[1])[-1:] == ["brk_length"] for e in evs[ri:]):
-                m_bad = m_bad or "brk_length changed although the resize failed"
+                if prank == 0:
+                    nq += 1
+                    want = ("bin", "Add", base, cur_len if cur_len is not None else A.W(LENGTH, 64), 64)
+                    if len(raxw) != 1:
+                        q_bad = q_bad or "%d RAX writes on the query path" % len(raxw)
+                    elif not U.affine_eq(raxw[0][3], want):
+                        q_bad = q_bad or "brk(0) returns %s, the current break is %s" % (A.show(U.strip(raxw[0][3])), A.show(want))
+                    if rs:
+                        q_bad = q_bad or "brk(0) resizes the heap"
+                elif prank == 1:
+                    nb += 1  # below the heap base: not specified by the property (crash freedom is C19's)
+                else:
+                    nm += 1
+                    rd = [e for e in evs if e[0] == "reg_read" and U.reg_name(facts, e[2]) == "RDI"]
+                    p = A.W(("reg", 64, rd[0][2], 0), 64) if rd else None
+                    if p is None:
+                        m_bad = m_bad or "brk(p), %s: the argument register is never read" % cname
+                        continue
+                    if len(rs) != 1:
+                        m_bad = m_bad or "brk(p), %s: %d resize calls, expected one (the break does not move)" % (cname, len(rs))
+                        continue
+                    if U.strip(rs[0][1]) != U.strip(base):
+                        m_bad = m_bad or "resizes the area at %s, heap base is %s" % (A.show(rs[0][1]), A.show(base))
+                    if not U.affine_eq(rs[0][2], ("bin", "Sub", p, base, 64)):
+                        m_bad = m_bad or "requests size %s, expected p - base" % A.show(rs[0][2])
+                    if len(raxw) != 1 or not U.affine_eq(raxw[0][3], p):
+                        m_bad = m_bad or "brk(p), %s: returns %s, expected p" % (cname, A.show(raxw[0][3]) if raxw else None)
+                    ri = evs.index(rs[0])
+                    ls = [i for i, e in enumerate(evs) if e[0] == "store" and fieldnames(e[1])[-1:] == ["brk_length"] and i > ri]
+                    if not ls:
+                        m_bad = m_bad or "brk_length not updated after a successful resize"
+                    elif not U.affine_eq(evs[ls[-1]][2], rs[0][2]):
+                        m_bad = m_bad or "brk_length := %s differs from the resized size" % A.show(evs[ls[-1]][2])
+                    early = [i for i, e in enumerate(evs) if e[0] == "store" and fieldnames(e[1])[-1:] == ["brk_length"] and i < ri and not did_alloc]
+                    if early:
+                        m_bad = m_bad or "brk_length updated before the resize succeeded"
+    ck.cov["brk_paths"] = npaths
+    ck.floor("brk classes with a Handled path", len(covered), 8)
     if nq == 0:
         q_bad = q_bad or "no query path"
     if nm == 0:
@@ -212,7 +227,8 @@ def run(ctx):
             ck.violation(rule, "brk hook", bad, where=where, what=what or bad)
         else:
             ck.ok(rule, "brk hook")
-    ck.sample({"rule": "C13", "paths": len(rets), "query_paths": nq, "move_paths": nm, "first_use_paths": nf})
+    ck.sample({"rule": "C13", "paths": npaths, "query_paths": nq, "move_paths": nm, "first_use_paths": nf, "below_base_paths": nb,
+               "classes": "{first use, heap exists} x {p=0, 0<p<base, p=base, p>base}"})
     # ---- reach
     body = facts.method(AXE, "mem_resize_section")
     rej_self = []
